@@ -9,6 +9,7 @@ package shmipc
 
 import (
 	"fmt"
+	"runtime"
 	"sync"
 	"sync/atomic"
 	"unsafe"
@@ -24,6 +25,7 @@ type vThread struct {
 	site   string // yield site it is parked at ("" before first run, "done" when finished)
 	done   bool
 	panicV interface{}
+	goid   uint64
 }
 
 type vScheduler struct {
@@ -31,6 +33,22 @@ type vScheduler struct {
 	cur     *vThread
 	spawned []func() // functions handed to vGo, turned into threads by the driver
 	filter  func(site string) bool // optional: which yield sites are scheduling points (nil = all)
+	checkGoid bool                  // set when free-running goroutines may call instrumented code concurrently
+}
+
+// vGoid: id of the calling goroutine (parsed from runtime.Stack; only used when checkGoid is set)
+func vGoid() uint64 {
+	var buf [64]byte
+	n := runtime.Stack(buf[:], false)
+	// "goroutine 123 [running]:"
+	var id uint64
+	for _, ch := range buf[10:n] {
+		if ch < '0' || ch > '9' {
+			break
+		}
+		id = id*10 + uint64(ch-'0')
+	}
+	return id
 }
 
 var vS *vScheduler
@@ -47,6 +65,9 @@ func vYield(site string) {
 	if s.filter != nil && !s.filter(site) {
 		return
 	}
+	if s.checkGoid && vGoid() != t.goid {
+		return // a free-running goroutine (send loop, timers): not a scheduled thread
+	}
 	t.parked <- site
 	<-t.grant
 }
@@ -56,6 +77,7 @@ func (s *vScheduler) newThread(f func()) *vThread {
 	t := &vThread{id: len(s.threads), grant: make(chan struct{}), parked: make(chan string)}
 	s.threads = append(s.threads, t)
 	go func() {
+		t.goid = vGoid()
 		<-t.grant
 		defer func() {
 			if r := recover(); r != nil {
